@@ -29,7 +29,8 @@ import Tahoe.Dir.TraversePotential
 | "even when subdirectories are shared between parents or form cycles" (termination) | `terminates_on_cycles`, `fuel_graph_size_suffices`, `terminates_with_nested_literal_dirs` (potential constructed from cap-length nesting; no hypothesis on cycles) |
 | "each reported path leads to the object reported for it" | `paths_lead_to_node` |
 | sizes in deep-stats (size-*, largest-*, histogram) | **correspondence + monitor only** (sizes are not in the model) |
-| behaviour under concurrent modification, cancellation, errors from `list()` | **not covered** |
+| several traversals in progress at once (build_manifest + deep-stats, concurrent requests; seeded C21-e) | `concurrent_traversals_independent` (any interleaving of any number of traversals; the model's traversals share only the graph — that the code's `list()` shares nothing more is **correspondence + monitor**: concurrent recorder walks vs the driver's `multi`) |
+| behaviour under concurrent *modification* of the directories, cancellation, errors from `list()` | **not covered** |
 -/
 namespace Tahoe.C21
 open Tahoe.Dir.Traverse
@@ -284,6 +285,26 @@ theorem literal_reported_per_link (hnames : ∀ n, ((g n).children.map (·.1)).N
     have h2 : (traverse g root fuel).1 = (run g fuel (init g root)).1.out := rfl
     rw [h2]
     simpa using this
+
+/-- **Traversals that run at the same time do not disturb each other.**  Any number of traversals — of the same
+    root or of different ones — may be in progress in one process, their directory visits interleaved in any order
+    (`sched` says whose turn it is): each has its own `found` set, stack and walker, and listing a directory only
+    reads the graph.  A traversal that alone finishes within `fuel` visits and gets at least that many turns ends
+    with exactly the report it produces alone — so every theorem above holds for each of them. -/
+theorem concurrent_traversals_independent (roots : Nat → Nat) (sched : List Nat) (i fuel : Nat)
+    (hdone : (traverse g (roots i) fuel).2 = true) (hturns : fuel ≤ sched.count i) :
+    (multiRun g sched (fun j => init g (roots j)) i).out = (traverse g (roots i) fuel).1 ∧
+    (multiRun g sched (fun j => init g (roots j)) i).stack = [] := by
+  rw [multiRun_component]
+  have h := iter_after_done g fuel (sched.count i) (init g (roots i)) hdone hturns
+  rw [h]
+  exact ⟨rfl, run_done_stack g fuel _ hdone⟩
+
+/-- three traversals of `demo` (two from the root, one from directory 3) under an irregular schedule -/
+example :
+    let f := multiRun demo [0, 1, 1, 2, 0, 2, 2, 1, 0, 0, 1, 2, 2, 0, 1] (fun j => init demo (if j = 2 then 3 else 0))
+    (f 0).out = (traverse demo 0 6).1 ∧ (f 1).out = (traverse demo 0 6).1 ∧ (f 2).out = (traverse demo 3 6).1 ∧
+    (traverse demo 3 6).2 = true := by decide
 
 /-- the walk on `demo`: every object once, the literal file once per link, finished after 4 directory visits;
     and `demo` meets every hypothesis of the theorems above (with `U` = its five verify caps, `cost = 1`) -/
